@@ -4,7 +4,8 @@ from contracts import roms_vertical as Vt
 
 UNITS = list(Vt.VERTICAL_UNITS) + [S.Z2sKernelSorted(), S.Z2s()]
 LEMMAS = list(Vt.VERTICAL_LEMMAS)
-NATIVE = [dict(name="vertical set-ups incl. Vstretching 2 on a parameter grid (real s_stretch, sdepth, z2s)", harness="vertical_bounded", kind="bounded")]
+NATIVE = [dict(name="vertical set-ups incl. Vstretching 2 on a parameter grid (real s_stretch, sdepth, z2s)", harness="vertical_bounded", kind="bounded"), 
+          dict(name="encoder validation: the interpreter in concrete mode vs the real numpy/numba functions", harness="validate_encoder", kind="validation", prepare="pyvc.validate:run_validation")]
 LEVEL = "proof"
 LEVEL_TEXT = ("Deductive proof for every N, theta_s, theta_b, hc, h in the stated ranges: s_stretch (Vstretching 1 and 4, rho and w) equals the ROMS stretching function, which is strictly "
               "increasing from -1 to 0; sdepth (Vtransform 1 with hc <= h, and 2) equals the ROMS transform, levels strictly increasing within [-h, 0], w-levels from -h to 0, rho/w interleave; "
